@@ -43,7 +43,7 @@ pub fn all() -> Vec<PropInfo> {
         replay: c01::replay,
         shards: (8, 16),
         watchdog: (300, 3600),
-        rule: "cases (seq, k) drawn by SeqGen x k in 1..=31 and compared with the naive window-scan model; \
+        rule: "cases (seq, k) drawn by SeqGen x k in 1..=31 and compared with the naive window-scan model, through the core iterator and (as UTF-8 strings, bytes >= 0x80 mapped to two-byte characters) through pykmertools.KmerGenerator; \
                non-trivial = at least one window is emitted and (a foreign byte is present or k >= 16 or a lower-case/U base); \
                distinct by hash of (seq, k)",
         assumptions: &["bytes 0x00-0x03 are never generated (left unspecified by the property)", "k outside 1..=31 never generated"],
@@ -57,7 +57,7 @@ pub fn all() -> Vec<PropInfo> {
         watchdog: (300, 3600),
         rule: "(a) every code x < 4^k enumerated for small k and sampled (uniform, extremes, palindromes, single-bit patterns, top digit set) for k up to 31: \
                involution, agreement with text-level reverse complement, decode/encode round trip; non-trivial = x not in {0, 4^k-1}. \
-               (b) sequences x k: each pair's second component is the reverse complement of the first, the stream of the reverse-complemented text is the mirrored stream, \
+               (a') pykmertools to_acgt of both iterator classes against the model's decoding; (b) sequences x k: each pair's second component is the reverse complement of the first, the stream of the reverse-complemented text is the mirrored stream, \
                canonical multisets agree; non-trivial = at least 2 windows and seq != its reverse complement; distinct by hash of the case",
         assumptions: &["codes >= 4^k are never passed (unspecified)", "reverse complement of a foreign byte is itself; U complements to A"],
         abort_is_violation: false,
@@ -164,7 +164,7 @@ pub fn all() -> Vec<PropInfo> {
         shards: (8, 16),
         watchdog: (300, 3600),
         rule: "(a) all strings over {A,C,G,T,N} up to a length bound crossed with a fixed list of small (w,m); (b) random (bytes, w, m) with m<=31, w<=m+60; \
-               iterator output compared with the model's maximal runs; non-trivial = the model has >= 2 runs, or >= 1 run and a foreign byte; distinct by enumeration / hash of the case",
+               iterator output (core, and pykmertools.MinimiserGenerator on UTF-8 strings) compared with the model's maximal runs; non-trivial = the model has >= 2 runs, or >= 1 run and a foreign byte; distinct by enumeration / hash of the case",
         assumptions: &["1 <= m <= w, m <= 31 by construction", "bytes 0x00-0x03 never generated"],
         abort_is_violation: false,
     },
@@ -187,7 +187,7 @@ pub fn all() -> Vec<PropInfo> {
         shards: (8, 16),
         watchdog: (900, 7200),
         rule: "(1) nucleotide strings (ACGTU either case, low-complexity included) x S in 1..2^20 through the per-sequence routine: every point equals the exact dyadic model (bit-exact while the exact value fits 53 bits, within S*2^-48 beyond), lies in the sub-square fixed by its last min(i,20) bases, and is unchanged when a suffix is appended; \
-               (2) strings with one inserted foreign byte must be refused (Err or panic), never Ok; (3) files of nucleotide records x containers x threads x batch limit {1 byte, 3 records, half, 4 GiB}, optionally with one poisoned record: rows per record in order, and on refusal only correct complete rows of records before the offending one; \
+               (2) strings with one inserted foreign byte must be refused (Err or panic), never Ok; (2') pykmertools.CgrComputer.vectorise_one: exact points for nucleotide strings, ValueError for any string holding another character (incl. non-ASCII); (3) files of nucleotide records x containers x threads x batch limit {1 byte, 3 records, half, 4 GiB}, optionally with one poisoned record: rows per record in order, and on refusal only correct complete rows of records before the offending one; \
                non-trivial = length >= 5 with >= 3 distinct bases (direct) / >= 2 records one of them >= 5 bases (files); distinct by hash of the case",
         assumptions: &["a panic counts as 'rejected with an error'", "S >= 1; exactness rule: exact iff the exact value needs <= 53 significant bits"],
         abort_is_violation: false,
@@ -209,7 +209,7 @@ pub fn all() -> Vec<PropInfo> {
         replay: c15::replay,
         shards: (8, 16),
         watchdog: (900, 7200),
-        rule: "a generated in-range command (every subcommand, presets, -c/--counts, -H, -t 0..16, -k/-m/-w/-s/-c/-v/-m values, --acgt, --alt-input, stdin) over generated inputs is executed through the built executable and related to a second execution: the library called with the documented meaning of the options (differential), another preset (equal after delimiter replacement), header toggled (exactly one more line), another thread count (same bytes / same line multiset), counts toggled (per-row normalisation within 5e-7), --acgt toggled (same table after decoding), stdin instead of a file; \
+        rule: "a generated in-range command (every subcommand, presets, -c/--counts, -H, -t 0..16, -k/-m/-w/-s/-c/-v/-m values, --acgt, --alt-input, stdin) over generated inputs is executed through the built executable and related to a second execution: the library called with the documented meaning of the options (differential), another preset (equal after delimiter replacement), header toggled (exactly one more line), another thread count (same bytes / same line multiset), counts toggled (per-row normalisation within 5e-7), --acgt toggled (same table after decoding), stdin instead of a file, the same command line through the Python package's entry point pykmertools.run_cli (py/entry.py); \
                plus a fixed list of values just outside every documented range (diagnostic on stderr, no output location created, no panic); non-trivial = >= 2 records and >= 2 options differing from their defaults; distinct by hash of the case",
         assumptions: &["exit status of refusals is not constrained (the statement does not; the w <= m refusal exits 0)", "comp cgr is always given an explicit -v (its default size is not documented)"],
         abort_is_violation: false,
